@@ -277,6 +277,7 @@ type ExecObs struct {
 	Counts  map[string]int
 	Invoked int
 	State   string // instance states after the execution
+	Late    int    // entries logged during the quiet hour after the history's last execution (they are appended to Events)
 }
 
 func (o ExecObs) Gallina() string {
@@ -313,6 +314,7 @@ func runHistory(t *testing.T, inst InstD, reqs []ReqD) (obs []ExecObs, start int
 		t0 := time.Now()
 		start = t0.UnixNano()
 		li := buildInstances(inst)
+		var lastLog *execLog
 		for _, rq := range reqs {
 			rq := rq
 			if rq.Gap > 0 {
@@ -330,7 +332,12 @@ func runHistory(t *testing.T, inst InstD, reqs []ReqD) (obs []ExecObs, start int
 				ctx = context.WithValue(ctx, cachepolicy.CacheKey, keyName(rq.CtxKey))
 			}
 			var asyncCancel func()
-			if rq.ExtT > 0 && rq.ExtKind == "AsyncCancel" {
+			if rq.ExtKind == "PreCancel" {
+				ctx, cancel = context.WithCancel(ctx)
+				cancel()
+			} else if rq.ExtKind == "PreDeadline" {
+				ctx, cancel = context.WithDeadline(ctx, time.Now())
+			} else if rq.ExtT > 0 && rq.ExtKind == "AsyncCancel" {
 				// ExecutionResult.Cancel() at the given instant (async entry points only)
 			} else if rq.ExtT > 0 {
 				if rq.ExtKind == "Deadline" {
@@ -448,6 +455,18 @@ func runHistory(t *testing.T, inst InstD, reqs []ReqD) (obs []ExecObs, start int
 			cancel()
 			synctest.Wait()
 			obs = append(obs, ExecObs{Res: res, Err: err, Start: reqStart, End: end, Events: log.events, Counts: log.counts, Invoked: invoked, State: instState(li)})
+			lastLog = log
+		}
+		// a quiet hour: nothing the library armed for an execution may still go off once the execution has completed
+		if lastLog != nil && len(obs) > 0 {
+			time.Sleep(time.Hour)
+			synctest.Wait()
+			lastLog.mu.Lock()
+			if late := len(lastLog.events) - len(obs[len(obs)-1].Events); late > 0 {
+				obs[len(obs)-1].Late = late
+				obs[len(obs)-1].Events = lastLog.events // the late entries become part of the log: the model has none
+			}
+			lastLog.mu.Unlock()
 		}
 	})
 	return
